@@ -36,7 +36,8 @@ EXTENDS Integers, Sequences, FiniteSets, TLC, Json
 
 CONSTANTS
   MaxLevel,        \* operator levels explored (2 = "depth 3" of the property: leaves count as depth 1)
-  SampleMod,       \* 1: every tree;  n > 1: trees with >= 2 operator levels are sampled 1 in n
+  SampleMod,       \* 1: every tree;  n > 1: trees with 2 operator levels are sampled 1 in n
+  DeepMod,         \* trees with more than 2 operator levels are sampled 1 in DeepMod
   SampleSeed,
   MInitUseCache,   \* TRUE: CompositeParameter initialises its _use_cache slot (repaired); FALSE: pinned
   MClearByOperand, \* TRUE: _clear_cache tests the operand itself (repaired); FALSE: tests right._cache (pinned)
@@ -103,7 +104,9 @@ LeafCode(k) == CASE k = "P2" -> 1 [] k = "P3" -> 2 [] k = "PT" -> 3 [] k = "I" -
 OpCode(o) == CASE o = "add" -> 1 [] o = "sub" -> 2 [] o = "mul" -> 3 [] o = "div" -> 4 [] o = "pow" -> 5
 RECURSIVE H(_)
 H(t) == IF IsLeaf(t) THEN LeafCode(t.k) ELSE (H(t.l) * 31 + H(t.r) * 17 + OpCode(t.op) * 7 + 3) % 10007
-Sampled(t) == Level(t) <= 1 \/ SampleMod = 1 \/ (H(t) + SampleSeed) % SampleMod = 0
+Sampled(t) == \/ Level(t) <= 1
+              \/ Level(t) = 2 /\ (SampleMod = 1 \/ (H(t) + SampleSeed) % SampleMod = 0)
+              \/ Level(t) > 2 /\ (H(t) + SampleSeed) % DeepMod = 0
 
 -----------------------------------------------------------------------------
 (* PROPERTY: pointwise semantics                                           *)
@@ -247,7 +250,7 @@ Clear ==
   /\ pc' = "cleared"
   /\ UNCHANGED <<tree, copy, pickled, ncalls>>
 
-Pickle == /\ pc \in {"cleared", "copied"}
+Pickle == /\ pc \in {"built", "cleared", "copied"}
           /\ pickled' = [has |-> SlotsPickled(tree), td |-> orig.td]
           /\ pc' = "pickled" /\ last' = None
           /\ UNCHANGED <<tree, orig, copy, ncalls>>
@@ -289,11 +292,11 @@ Solve == /\ pc \in {"built", "cleared", "copied"}
 FillOf(f) == IF Expect(tree, f) = "val" /\ FormHasT(f) THEN CachingPaths(tree, "o") ELSE {}
 CallTimes(f) == IF FormHasT(f) THEN Times ELSE {0}
 \* exploration order of the model-checking runs (the trace specification uses the actions without it)
-MCall == \E f \in Forms, t \in Times :
+MCall == pc = "built" /\ \E f \in Forms, t \in Times :
            /\ t \in CallTimes(f) /\ ncalls < 2 /\ last.what \in {"none", "call"}
            /\ (last.what = "call" => (last.f = f /\ FormHasT(f) /\ last.t # t))  \* second call: same form, other time
            /\ Call(f, t, FillOf(f))
-MCallCopy == \E f \in Forms, t \in Times : t \in CallTimes(f) /\ ncalls < 1 /\ CallCopy(f, t, FillOf(f))
+MCallCopy == pc = "copied" /\ \E f \in Forms, t \in Times : t \in CallTimes(f) /\ ncalls < 1 /\ CallCopy(f, t, FillOf(f))
 MEq == last.what = "none" /\ \E other \in Variants(tree) : Eq(other)
 MPickle == pc = "cleared" /\ Pickle
 MClearCopy == last.what # "clear" /\ ClearCopy
